@@ -3,6 +3,7 @@ package main
 // Builtins, externals with built-in semantics, interface invokes, at-call assertions.
 
 import (
+	"os"
 	"fmt"
 	"go/token"
 	"go/types"
@@ -31,11 +32,11 @@ func (x *fnExec) builtin(fr *frame, st *State, b *ssa.Builtin, cc *ssa.CallCommo
 				return scalar(BVU(uint64(len(constStr(c))), 64), resT)
 			}
 			r := App("strlen", BV(64), a.T)
-			x.facts = append(x.facts, Fact{x.next(), And(BVCmp("bvsge", r, BVU(0, 64)), Eq(App("strlen", BV(64), BVU(0, 64)), BVU(0, 64))), false})
+			x.facts = append(x.facts, Fact{x.next(), And(BVCmp("bvsge", r, BVU(0, 64)), Eq(App("strlen", BV(64), BVU(0, 64)), BVU(0, 64))), false, ""})
 			return scalar(r, resT)
 		case *types.Map:
 			r := App("maplen_"+typeName(u), BV(64), a.T, x.mapDomTerm(st, u, a.T))
-			x.facts = append(x.facts, Fact{x.next(), BVCmp("bvsge", r, BVU(0, 64)), false})
+			x.facts = append(x.facts, Fact{x.next(), BVCmp("bvsge", r, BVU(0, 64)), false, ""})
 			return scalar(r, resT)
 		case *types.Pointer:
 			return scalar(BVU(uint64(u.Elem().Underlying().(*types.Array).Len()), 64), resT)
@@ -491,6 +492,8 @@ func (x *fnExec) external(fr *frame, st *State, ci ssa.CallInstruction, res ssa.
 
 // constrainFresh adds well-formedness facts for unknown slice results.
 func (x *fnExec) constrainFresh(st *State, v Val) {
+	// whatever object a value existing now refers to, an allocation made later is a different one
+	x.recordRefs(v)
 	switch v.K {
 	case VSlice:
 		x.assume(st, sliceWF(v))
@@ -695,6 +698,9 @@ func (x *fnExec) atStore(fr *frame, st *State, s *ssa.Store, p Val, v Val) {
 		return
 	}
 	for _, ac := range fr.C.AtStores {
+		if os.Getenv("SCTPVC_DEBUG") != "" {
+			fmt.Fprintf(os.Stderr, "ATSTORE prefix=%s want=F:%s ordinal=%d got=%d\n", p.Prefix, ac.Callee, ac.Ordinal, x.siteOrdinal(fr.fn, "store", ac.Callee, s.Pos()))
+		}
 		if strings.HasPrefix(ac.Callee, "map:") || p.Prefix != "F:"+ac.Callee {
 			continue
 		}
@@ -729,6 +735,17 @@ func (x *fnExec) atStore(fr *frame, st *State, s *ssa.Store, p Val, v Val) {
 		goal, hyp, sk := env.clauseGoal(clp)
 		o := x.obligation(st, fr.C.Key+":at store "+ac.Callee+":assert#"+clp.Label, "assert", "store at "+x.P.Fset.Position(pos).String(), clauseTags(fr.C, clp), goal, hyp, clp.Src)
 		o.skolems = sk
+		if hasTag(clp.Tags, "LEMMA") {
+			// asserted, then available: the assertion is a hypothesis for everything after this store
+			vars2 := copyVars(fr.vars)
+			for _, pv := range clp.litParams() {
+				if pv != nil && pv.Name() == "stored" {
+					vars2[pv] = v
+				}
+			}
+			env2 := &specEnv{x: x, vars: vars2, cur: st, old: fr.entry, info: clp.Info, fr: fr, at: s}
+			env2.assumeClause(clp, st)
+		}
 	}
 }
 
